@@ -20,6 +20,13 @@
     F23  new/new_root, del_root while the collector is stopped       — `(ghost ops).lost = []` / no `stop`
     KF-C06-dtor-alloc  an object whose destructor allocates            — `NoDtor ops`
     KF-C06-dealloc-registered  `dealloc` of a registered object        — `WellFormed` (dealloc only of raw objects)
+  and two more, found by the second-round audit, live in the *second layer* of the model (`stepX`/`runX`/`finalX`,
+  Cello/Lifecycle.lean, last section: the core model plus the type edge `Op.typed b t` and destructors that raise
+  `Op.raises a`; for a history without a raising destructor it is the core model by definition, `finalX_core`):
+    KF-C06-type-released-first  a run-time Type object released before an instance — `TypesKept ops`
+    KF-C06-dtor-raises  a destructor run by the collector raises            — `NoRaise ops`
+  (section "second layer" at the end of this file: the headline theorem restated over `finalX` with both hypotheses,
+  and the `_refuted` statements without them).
 
   Vocabulary:  `Once a log`  = the ledger has exactly one `fin a` and exactly one `free a`, the `fin` first;
                `Clean a log` = the ledger has no event of `a`;
@@ -40,6 +47,7 @@
 import CelloProofs.Lemmas.LifeInv
 import CelloProofs.Lemmas.LifeSafe
 import CelloProofs.Lemmas.LifeNull
+import CelloProofs.Lemmas.LifeX
 import Cello.LifecycleSrc
 
 namespace Cello.Life
@@ -695,6 +703,34 @@ example :
 example : WellFormed (dtorAllocWitness ++ [Op.teardown [1, 2, 3]]) ∧ ¬ NoDtor (dtorAllocWitness ++ [Op.teardown [1, 2, 3]]) := by
   decide
 
+/-- **OPEN (second-round audit, item 3): `NoDtor` is wider than KF-C06-dtor-alloc.**  `NoDtor ops` is syntactic: it
+    excludes every history in which an object merely *declares* an allocating destructor, although the code is right
+    whenever that destructor runs outside the release loop of a sweep or below the threshold (the example above; generator
+    family (d), corpus/life_dtor_alloc.ops).  The exact territory of the finding is run-dependent and decidable: the
+    proposed repair (`Cfg.repaired`: `GC_Set` starts no collection while a release loop runs, `GC_Del` sweeps until only
+    roots are left) makes a difference on the history.  The statement that should replace the `NoDtor` versions — NOT
+    proved: `inv_run`/`finalise_spec` (Lemmas/LifeInv, LifeFin) are exact-effect lemmas for destructors that do not
+    allocate; extending them to a nested collection over an empty pending list is the missing piece. -/
+def C06_exactly_once_outside_dtor_alloc_statement : Prop :=
+  ∀ (ops : List Op) (order : List Addr), WellFormed (ops ++ [Op.teardown order]) → (∀ op ∈ ops, op ≠ Op.stop) →
+    (ghost ops).rawLive = [] → (∀ e ∈ (final ops).reg, e.root = false) →
+    (run Cfg.repaired St.init (ops ++ [Op.teardown order])).log = (final (ops ++ [Op.teardown order])).log →
+    (run Cfg.repaired St.init (ops ++ [Op.teardown order])).reg = (final (ops ++ [Op.teardown order])).reg →
+    ∀ (a : Addr) (k : Kind) (owned marks ord : List Addr), Op.new a k owned marks ord ∈ ops →
+      Once a (final (ops ++ [Op.teardown order])).log
+
+/-- its hypotheses are met by a history that `NoDtor` excludes (and its conclusion holds there), and fail on the witness of
+    the finding -/
+example :
+    let ops : List Op := [.new 1 .std [] [1] [], .dtor 1 [⟨11, [11], []⟩], .del 1 .std]
+    WellFormed (ops ++ [Op.teardown []]) ∧ ¬ NoDtor ops ∧
+      (run Cfg.repaired St.init (ops ++ [Op.teardown []])).log = (final (ops ++ [Op.teardown []])).log ∧
+      (run Cfg.repaired St.init (ops ++ [Op.teardown []])).reg = (final (ops ++ [Op.teardown []])).reg ∧
+      (final (ops ++ [Op.teardown []])).log = [.fin 1, .free 1, .fin 11, .free 11] ∧
+      (run Cfg.repaired St.init (dtorAllocWitness ++ [Op.teardown [1, 2, 3]])).log ≠
+        (final (dtorAllocWitness ++ [Op.teardown [1, 2, 3]])).log := by
+  decide
+
 /-! ### known finding KF-C06-dealloc-registered: `dealloc` does not unregister -/
 
 /-- the statement of `C06_exactly_once_alloc` with the program allowed to release with `dealloc(destruct(·))` what it
@@ -733,5 +769,162 @@ example :
       (final (ops ++ [Op.dealloc 4 .raw, Op.teardown []])).log =
         [.fin 2, .fin 1, .free 1, .free 2, .fin 3, .free 3, .fin 4, .free 4] := by
   decide
+
+/-! ### second layer: run-time Type objects (KF-C06-type-released-first) and destructors that raise (KF-C06-dtor-raises)
+
+  `finalX ops` runs the history on the second layer of the model: `Op.typed b t` records that the header of `b` points at
+  the run-time Type object `t`; `Op.raises a` that the destructor of `a` raises.  `XSt.releasedFirst` = some Type
+  object's memory was released while one of its instances had not been released (from that moment the process is
+  undefined: `destruct(instance)` reads the freed Type); `XSt.escaped` = number of exceptions destructors sent into the
+  program. -/
+
+/-- **the hypothesis about types**: the Type object of every typed object is *static* (never allocated by the history:
+    a file-scope `Cello(...)` type) or is *still registered* when the history ends — in particular a root (`new_root(Type,
+    …)`) that the program has not deleted and no swept owner owns: roots are never swept, not even by teardown.
+    "Reachable from the roots" is enough to survive the collections of the run (any marked set containing the Type), but
+    *not* teardown, which sweeps every non-root object in slot order (`C06_reachable_type_teardown_refuted`). -/
+def TypesKept (ops : List Op) : Prop :=
+  ∀ p ∈ (finalX ops).types, p.2 ∉ (ghost ops).allocd ∨ p.2 ∈ (final ops).regAddrs
+
+instance (ops : List Op) : Decidable (TypesKept ops) := by unfold TypesKept; infer_instance
+
+/-- **C06, a Type object that is static or still registered has never been released** — every well-formed history
+    (allocating destructors, stop windows, abandoned mark phases included) without a raising destructor: no instance ever
+    saw its Type released first. -/
+theorem C06_types_kept_never_released_first (ops : List Op) (h : WellFormed ops) (hnr : NoRaise ops)
+    (hk : TypesKept ops) : (finalX ops).releasedFirst = false := by
+  obtain ⟨hc, _⟩ := finalX_core ops hnr
+  unfold XSt.releasedFirst
+  rw [hc]
+  apply releasedFirstFrom_false
+  intro p hp
+  rcases hk p hp with hs | hr
+  · exact ((sinv_final ops h).fresh p.2 hs).2
+  · exact ((C06_registered_inert ops h).1 p.2 hr).2
+
+/-- **C06, exactly once on the second layer** — `C06_exactly_once_windows` with the two new hypotheses explicit: for every
+    well-formed history in which no destructor allocates (KF-C06-dtor-alloc) and none raises (KF-C06-dtor-raises), no
+    object was allocated with `new`/`new_root` while stopped (F23), the program released its raw objects and deleted its
+    roots, and every Type object of a typed object is static (KF-C06-type-released-first; after the teardown nothing is
+    registered, so "static" is what `TypesKept` says): after teardown, for every slot order, every allocated object has
+    exactly one `fin` then one `free`, the registry is empty, no Type was released before an instance, and no exception
+    came out of the collector. -/
+theorem C06_exactly_once_typed (ops : List Op) (order : List Addr) (h : WellFormed ops) (hnd : NoDtor ops)
+    (hnr : NoRaise ops) (hlost : (ghost ops).lost = []) (hraw : (ghost ops).rawLive = [])
+    (hroots : ∀ e ∈ (final ops).reg, e.root = false)
+    (hw' : WellFormed (ops ++ [Op.teardown order])) (hk : TypesKept (ops ++ [Op.teardown order])) :
+    (finalX (ops ++ [Op.teardown order])).core.reg = [] ∧
+    (∀ a ∈ (ghost ops).allocd, Once a (finalX (ops ++ [Op.teardown order])).core.log) ∧
+    (finalX (ops ++ [Op.teardown order])).releasedFirst = false ∧
+    (finalX (ops ++ [Op.teardown order])).escaped = 0 := by
+  have hnr' : NoRaise (ops ++ [Op.teardown order]) := noRaise_append hnr (by intro op hop; simp at hop; subst hop; rfl)
+  obtain ⟨hc, he⟩ := finalX_core _ hnr'
+  obtain ⟨h1, h2⟩ := C06_exactly_once_windows ops order h hnd hlost hraw hroots
+  rw [hc]
+  exact ⟨h1, h2, C06_types_kept_never_released_first _ hw' hnr' hk, he⟩
+
+/-- the hypotheses are met by a reachable history: a *static* type 100 with two instances, and a run-time Type object 1
+    registered as a root, with an instance 2 reclaimed by a collection, deleted by the program afterwards -/
+example :
+    let ops : List Op := [.new 1 .root [] [1] [], .new 2 .std [] [1, 2] [], .typed 2 1, .new 3 .std [] [1, 2, 3] [],
+                          .typed 3 100, .collect [1] [2, 3], .del 1 .root]
+    WellFormed ops ∧ NoDtor ops ∧ NoRaise ops ∧ (ghost ops).lost = [] ∧ (ghost ops).rawLive = [] ∧
+      (∀ e ∈ (final ops).reg, e.root = false) ∧ WellFormed (ops ++ [Op.teardown []]) ∧
+      (finalX (ops ++ [Op.teardown []])).core.log = [.fin 2, .free 2, .fin 3, .free 3, .fin 1, .free 1] ∧
+      (finalX (ops ++ [Op.teardown []])).releasedFirst = false ∧
+      -- (the root Type was *kept* as long as it had instances: `TypesKept` holds before the program deletes it)
+      TypesKept [.new 1 .root [] [1] [], .new 2 .std [] [1, 2] [], .typed 2 1, .new 3 .std [] [1, 2, 3] [],
+                 .typed 3 100, .collect [1] [2, 3]] := by
+  decide
+
+/-- the statement without the hypothesis about types: "for every well-formed history, no Type object is released before
+    one of its instances" -/
+def C06_type_never_released_first_statement : Prop :=
+  ∀ (ops : List Op), WellFormed ops → NoDtor ops → NoRaise ops → (finalX ops).releasedFirst = false
+
+/-- the witness of KF-C06-type-released-first (corpus/kf_c06_type_released_first.ops): a run-time Type object 1
+    (`new(Type, …)`: a registered, non-root object) and two instances 2, 3 of it -/
+def typeWitness : List Op :=
+  [.new 1 .std [] [1] [], .new 2 .std [] [1, 2] [], .typed 2 1, .new 3 .std [] [1, 2, 3] [], .typed 3 1]
+
+/-- **KF-C06-type-released-first.**  The history is well-formed, no destructor allocates or raises, the collector never
+    stops.  Teardown sweeps 1, 2, 3; with the slot order `[1, 2, 3]` the release loop releases the Type object first:
+    `destruct(2)` then starts with `type_instance(type_of(2), New)` on freed memory.  With the order `[2, 3, 1]` the same
+    program is fine: which one happens depends on the addresses. -/
+theorem C06_type_released_first_refuted :
+    WellFormed typeWitness ∧ NoDtor typeWitness ∧ NoRaise typeWitness ∧
+      (finalX (typeWitness ++ [Op.teardown [1, 2, 3]])).releasedFirst = true ∧
+      (finalX (typeWitness ++ [Op.teardown [2, 3, 1]])).releasedFirst = false ∧
+      ¬ TypesKept (typeWitness ++ [Op.teardown [1, 2, 3]]) ∧
+      ¬ C06_type_never_released_first_statement := by
+  refine ⟨by decide, by decide, by decide, by decide, by decide, by decide, ?_⟩
+  intro hall
+  have := hall (typeWitness ++ [Op.teardown [1, 2, 3]]) (by decide) (by decide) (by decide)
+  exact absurd this (by decide)
+
+/-- **a reachable Type is not safe at teardown, and an unreachable one is not safe during the run**: (i) the program
+    holds the Type object 1 (it is in the marked set of every collection): the collections of the run keep it, teardown —
+    which sweeps every non-root object — still releases it before its instance 2; (ii) the program has dropped the Type
+    but holds the instance 2 (marked): a collection during the run releases the Type under the live instance (the mark
+    phase does not follow the header: KF-C01-type-outlived seen from C06). -/
+theorem C06_reachable_type_teardown_refuted :
+    (finalX [.new 1 .std [] [1] [], .new 2 .std [] [1, 2] [], .typed 2 1, .collect [1] [1, 2]]).releasedFirst = false ∧
+    (finalX [.new 1 .std [] [1] [], .new 2 .std [] [1, 2] [], .typed 2 1, .collect [1, 2] [], .teardown [1, 2]]).releasedFirst = true ∧
+    (finalX [.new 1 .std [] [1] [], .new 2 .std [] [1, 2] [], .typed 2 1, .collect [2] []]).releasedFirst = true := by
+  decide
+
+/-- the statement of `C06_exactly_once` on the second layer without `NoRaise`: "… including objects whose destructors
+    raise" -/
+def C06_exactly_once_dtor_raises_statement : Prop :=
+  ∀ (ops : List Op) (order : List Addr), WellFormed ops → NoDtor ops → (∀ op ∈ ops, op ≠ Op.stop) →
+    (ghost ops).rawLive = [] → (∀ e ∈ (finalX ops).core.reg, e.root = false) →
+    ∀ (a : Addr) (k : Kind) (owned marks ord : List Addr), Op.new a k owned marks ord ∈ ops →
+      Once a (finalX (ops ++ [Op.teardown order])).core.log
+
+/-- the witness of KF-C06-dtor-raises (corpus/kf_c06_dtor_raises.ops, first history): three leaves, the destructor of 2
+    raises, all three dropped and swept by one collection in the order 1, 2, 3 -/
+def raiseWitness : List Op :=
+  [.new 1 .std [] [1] [], .new 2 .std [] [1, 2] [], .new 3 .std [] [1, 2, 3] [], .raises 2, .collect [] [1, 2, 3]]
+
+/-- **KF-C06-dtor-raises.**  The collection finalises 1, enters the destructor of 2, which raises: no `free 2`, the
+    release loop is left, object 3 — which left the registry in phase 1 — is still on the pending list, which stays set
+    outside the collection (`[NULL, NULL, 3]`); the exception arrives in the program.  The teardown sweep starts from an
+    empty registry and overwrites the list: 3 is never finalised, 2 never released. -/
+theorem C06_dtor_raises_refuted :
+    WellFormed raiseWitness ∧ NoDtor raiseWitness ∧ ¬ NoRaise raiseWitness ∧
+      (finalX raiseWitness).core.log = [.fin 1, .free 1, .fin 2] ∧
+      (finalX raiseWitness).core.pending = [none, none, some 3] ∧ (finalX raiseWitness).core.reg = [] ∧
+      (finalX raiseWitness).escaped = 1 ∧
+      (finalX (raiseWitness ++ [Op.teardown []])).core.log = [.fin 1, .free 1, .fin 2] ∧
+      ¬ C06_exactly_once_dtor_raises_statement := by
+  refine ⟨by decide, by decide, by decide, by decide, by decide, by decide, by decide, by decide, ?_⟩
+  intro hall
+  have := hall raiseWitness [] (by decide) (by decide) (by decide) (by decide) (by decide) 3 .std [] [1, 2, 3] [] (by decide)
+  have hlog : (finalX (raiseWitness ++ [Op.teardown []])).core.log = [.fin 1, .free 1, .fin 2] := by decide
+  rw [hlog] at this
+  have := this.counts.1
+  simp at this
+
+/-- the other routes of KF-C06-dtor-raises: (i) an explicit `del` of the raising object: `fin`, never `free`, `GC_Rem`'s
+    `mitems` update skipped; (ii) `del` of a Box 3 → Box 2 → leaf 1 whose leaf raises: the exception passes through both
+    Box destructors, none of the three is released; (iii) an object abandoned on the stale pending list is still found
+    there by a later `del` (`GC_Rem_Ptr` walks `freelist[0 .. freenum)`) — until the next sweep forgets it; (iv) at
+    teardown (nobody catches: the process ends with `Uncaught ValueError`, status 1). -/
+theorem C06_dtor_raises_routes_refuted :
+    (finalX [.new 1 .std [] [1] [], .raises 1, .del 1 .std]).core.log = [.fin 1] ∧
+    (finalX [.new 1 .std [] [1] [], .raises 1, .del 1 .std]).core.mitems = 2 ∧
+    (finalX [.new 1 .std [] [1] [], .new 2 .std [1] [1, 2] [], .new 3 .std [2] [1, 2, 3] [], .raises 1, .del 3 .std]).core.log
+      = [.fin 3, .fin 2, .fin 1] ∧
+    (finalX (raiseWitness ++ [Op.del 3 .std])).core.log = [.fin 1, .free 1, .fin 2, .fin 3, .free 3] ∧
+    (finalX [.new 1 .std [] [1] [], .new 2 .std [] [1, 2] [], .new 3 .std [] [1, 2, 3] [], .raises 2, .teardown [1, 2, 3]]).core.log
+      = [.fin 1, .free 1, .fin 2] ∧
+    (finalX [.new 1 .std [] [1] [], .new 2 .std [] [1, 2] [], .new 3 .std [] [1, 2, 3] [], .raises 2, .teardown [1, 2, 3]]).escaped = 1 := by
+  decide
+
+/-- safety survives a raising destructor on the witnesses: nothing is finalised twice (the raising object and the
+    abandoned ones have *fewer* events, never more) — an illustration by evaluation; `C06_no_double` itself is about
+    histories without a raising destructor (`finalX_core`) -/
+example : (finalX (raiseWitness ++ [Op.del 3 .std, Op.collect [] [], Op.teardown []])).core.log =
+    [.fin 1, .free 1, .fin 2, .fin 3, .free 3] := by decide
 
 end Cello.Life
